@@ -369,12 +369,31 @@ def r07e(ctx):
         return e
     b1, b2 = tup_base(scheme), tup_base(data)
     ok = b1 == b2 and b1[0] == 'local' and flow.show(scheme).endswith('.0') and '.1' in flow.show(data)
+    two_var = False
+    if not ok and b1[0] == 'local' and b2[0] == 'local' and b1 != b2:
+        # two variables reassigned together: `if payload.len() >= chunk.len() { scheme = None; payload = chunk.into(); }`
+        ds1, ds2 = a.flow.defs.get(b1[1], []), a.flow.defs.get(b2[1], [])
+
+        def dexpr(d):
+            return a.flow.rvalue(d[3], 0) if d[0] == 'assign' else a.flow.call(d[2], d[1], 0)
+        none_d = [d for d in ds1 if d[0] == 'assign' and flow.mentions(dexpr(d), lambda z: z[0] == 'agg' and z[2].endswith('CompressionScheme::None'))]
+        raw_d = [d for d in ds2 if flow.mentions(dexpr(d), lambda z: z[0] == 'param' and z[1] == 1) and not flow.mentions(dexpr(d), lambda z: z[0] == 'call' and sg(z[1]).endswith('compress_from_slice'))]
+        comp_d = [d for d in ds2 if flow.mentions(dexpr(d), lambda z: z[0] == 'call' and sg(z[1]).endswith('compress_from_slice'))]
+        ge = edges_where(a, lambda op, l, r: op == 'Ge' and 'len' in flow.show(l) and tup_base(l) == b2 and 'len' in flow.show(r) and flow.mentions(r, lambda z: z[0] == 'param' and z[1] == 1))
+        if len(ds1) == 2 and len(ds2) == 2 and len(none_d) == 1 and len(raw_d) == 1 and len(comp_d) == 1 and ge:
+            bs, bd = none_d[0][1], raw_d[0][1]
+            tgt = [t_ for (_, t_) in ge]
+            # both reassignments happen exactly on the fallback edge, and both on every path through it
+            ok = (a.cfg.must_pass(bs, via_edges=ge) and a.cfg.must_pass(bd, via_edges=ge)
+                  and all(hn[0] not in a.cfg.reach([t_], cut_edges=a.cfg.out_edges(bs)) or bs == t_ for t_ in tgt)
+                  and all(hn[0] not in a.cfg.reach([t_], cut_edges=a.cfg.out_edges(bd)) or bd == t_ for t_ in tgt))
+            two_var = ok
     ctx.check(ok, 'R07e', fn, 'same branch', a.loc(hn[0]), 'the scheme recorded in the header and the bytes written are the two components of one (scheme, bytes) pair chosen by the fallback',
               'the header\'s compression scheme and the bytes written can come from different branches of the incompressible fallback (%s vs %s)' % (flow.show(scheme)[:40], flow.show(data)[:40]))
     ok2 = 'len' in flow.show(clen) and tup_base(clen) == b2 and 'len' in flow.show(ulen) and flow.mentions(ulen, lambda z: z == ('param', 1, 'chunk'))
     ctx.check(ok2, 'R07e', fn, 'lengths', a.loc(hn[0]), 'header.compressed_length = len(bytes written), header.uncompressed_length = len(input chunk)')
     # the pair's two assignments: (None, chunk) on the >= edge, (scheme, compressed) otherwise
-    if b1[0] == 'local':
+    if b1[0] == 'local' and not two_var:
         ds = [d for d in a.flow.defs.get(b1[1], []) if d[0] == 'assign']
         vals = [a.flow.rvalue(d[3], 0) for d in ds]
         okv = len(vals) == 2 and all(v[0] == 'agg' and v[1] == 'tuple' for v in vals)
